@@ -1238,7 +1238,7 @@ def check_forwarding(ctx, batch):
 def run_corpus(ctx, batch, var):
     pk = []
     for name, c in corpus("C02"):
-        case = c.get("case", c)
+        case = c if "kind" in c else c["case"]   # bare case (corpus) or wrapped (copied replay file)
         k = case.get("kind")
         if k in ("enc", "dec"):
             check_tuple(ctx, batch, case["hdr"], case["fields"], "corpus")
@@ -1247,7 +1247,9 @@ def run_corpus(ctx, batch, var):
         elif k == "fwd":
             sent = forward(case["case"])
             judge_forward(ctx, case["case"], sent)
-        ctx.cover("corpus_cases")
+            if len(sent) == 1:
+                batch.add("pkt.fwd." + case["case"]["orig"], case["case"], sent[0].hex(), f"pkt fwd {case['case']['pkt']}")
+        ctx.cover("corpus_cases:" + str(k))
     run_packet_cases(ctx, batch, pk, var, "corpus")
 
 
